@@ -97,16 +97,16 @@ def run_hist(seed, n):
                     try:
                         await asyncio.wait_for(xknx.join(), 600)
                         ev.append({"ev": "joined", "id": 0, "kind": "", "t": ms(loop.time())})
-                    except TimeoutError:
-                        ev.append({"ev": "join_timeout", "id": 0, "kind": "", "t": ms(loop.time())})
+                    except Exception as ex:  # noqa: BLE001 - join() must return: a timeout or an escaping error is recorded
+                        ev.append({"ev": "join_failed:" + type(ex).__name__, "id": 0, "kind": "", "t": ms(loop.time())})
                         return
                 else:
                     await asyncio.sleep(rnd.choice([0.05, 1.0, 4.0]))
             try:
                 await asyncio.wait_for(xknx.telegram_queue.stop(), 600)
                 ev.append({"ev": "stopped", "id": 0, "kind": "", "t": ms(loop.time())})
-            except TimeoutError:
-                ev.append({"ev": "stop_timeout", "id": 0, "kind": "", "t": ms(loop.time())})
+            except Exception as ex:  # noqa: BLE001
+                ev.append({"ev": "stop_failed:" + type(ex).__name__, "id": 0, "kind": "", "t": ms(loop.time())})
             xknx.task_registry.stop()
             xknx.started.clear()
 
